@@ -209,10 +209,15 @@ func c05SegStart(p *rtr.Pkt, seg int) int {
 func TestC05(t *testing.T) {
 	r := mc.NewRun(t, "C05", mc.Exploration)
 	r.Rule = "every valid packet of rtr.Cases (path shape x position of the AS x interface choice; validly MACed) and its " +
-		"variants (displaced first hop; hop ingress rewritten to 0 / unknown with valid MAC) x arrival link {matching external, " +
+		"variants (displaced first hop; hop ingress rewritten to 0 / unknown / every other sibling-owned interface with valid MAC; foreign hop " +
+		"fields - those this router neither validates nor reads the AS ingress from - renumbered to every interface id of this AS and 0) " +
+		"x arrival link {matching external, " +
 		"sibling link of the ingress owner, sibling link of another router, internal link} x SrcIA x DstIA in {local, other ISD same AS, " +
 		"AS differing in one bit, neighbour on ingress, neighbour on egress, third}^2 x source host {IPv4, IPv6, v4-mapped IPv6, SVC} x " +
-		"{SCION, EPIC} x {single, multi border router}; distinct key = case+variant+arrival+src+dst+host+type; non-trivial = all"
+		"{SCION, EPIC} x {single, multi border router} (renumbering / sibling-interface variants: {local, third}^2 x IPv4); on the " +
+		"representatives SrcIA in {local, third} x DstIA third (local at the last hop) x IPv4 of every case x variant x arrival the packet is judged " +
+		"on fresh processors AND directly after each kind of predecessor packet on the same processor (rtr.Dirt: cross-over, peering hop, " +
+		"from sibling, from host, delivery, EPIC, extension headers, one-hop ...); distinct key = case+variant+arrival+src+dst+host+type; non-trivial = all"
 	local := rtr.LocalIA
 	otherISD := addr.MustParseIA("2-ff00:0:110")
 	oneBit := addr.MustParseIA("1-ff00:0:111")
@@ -377,7 +382,7 @@ func TestC05(t *testing.T) {
 										}
 										if len(defects) > 0 {
 											if fwd {
-												cls := vr.name
+												cls := vr.class()
 												if vr.ingressIf == 0 && !first {
 													cls = "hop-ingress-0-not-first-hop"
 													if !srcLocal {
@@ -490,6 +495,9 @@ func TestC05(t *testing.T) {
 		"'the hop's ingress interface' is the travel-direction ingress of the current hop, or of the previous segment's last hop at the first hop after a (non-peering) segment change; an interface nobody owns (0, unknown) has no owning sibling",
 		"a packet on its first hop arriving over a sibling link is not forbidden by the statement: recorded only",
 		"underlay source-address spoofing (a host sending from a sibling router's address) is outside the unit under test: the arrival link is given",
+		"interface identifiers are local to an AS: a hop field of another AS carrying a number that also designates an interface of this AS (own or sibling-owned) says nothing about this AS's ingress interface",
+		"the verdict for a packet must not depend on what the same processor handled before (processors are per-goroutine, long-lived): a difference between fresh processors and any length-1 history is a violation, and the differing result is judged by the same table (finding keys with suffix /after-other-packet)",
+		"'accepted only if' is a necessary condition: a valid packet that is NOT forwarded is not a violation of the statement; it is reported as a baseline failure (HARNESS-ERROR, exit 2) because all rejections derived from that packet would be vacuous - it never replaces a violation found in the same run (violations decide the exit code first)",
 	}
 	r.Finish(6)
 }
